@@ -72,6 +72,21 @@ Theorem find_by_name_stable : forall inst df cs r g c n k d fl,
 Proof. exact Proofs.Plugins.find_by_name_stable. Qed.
 Print Assumptions find_by_name_stable.
 
+(* a NAME wins over an ALIAS whichever side (installed table / run-time registry) holds either:
+   a name that its own group resolves is found as that class whatever the alias groups contain,
+   and registering an alias of the same spelling -- forced or not -- cannot replace it *)
+Theorem name_shadows_alias : forall r inst df g c n k d fl,
+  dget df g = Some d -> lookup1 r inst g (c :: n) = Some k ->
+  find_plugin r inst df g (NStr (c :: n)) fl = Ok k.
+Proof. exact Proofs.Plugins.name_shadows_alias. Qed.
+Print Assumptions name_shadows_alias.
+
+Theorem alias_registration_cannot_replace_name : forall inst df r g c n k d fl k' force,
+  dget df g = Some d -> lookup1 r inst g (c :: n) = Some k ->
+  find_plugin (snd (register_plugin r inst df (g ++ s_aliases) (c :: n) k' force)) inst df g (NStr (c :: n)) fl = Ok k.
+Proof. exact Proofs.Plugins.alias_registration_cannot_replace_name. Qed.
+Print Assumptions alias_registration_cannot_replace_name.
+
 Theorem find_by_suffix_stable : forall inst df cs r g fl k d,
   dget df g = Some d -> fl <> [] ->
   lookup1 r inst (g ++ s_suffixes) (snd (splitext fl)) = Some k ->
@@ -368,6 +383,16 @@ Example registry_example :
 Proof. vm_compute. repeat split; repeat constructor. Qed.
 
 (* the hypotheses of register_then_find_alias / replaced_only_when_forced are satisfiable *)
+(* the C17i scenario: an un-forced run-time alias "bibtex" is accepted (True) but the installed
+   name "bibtex" (class 100) is still what find_plugin answers, also after forcing the alias *)
+Example name_shadows_alias_example :
+  fst (run ex_inst ex_df []
+    [CReg (ex_g ++ s_aliases) (s2l "bibtex") 7%N false; CFind ex_g (NStr (s2l "bibtex")) None;
+     CReg (ex_g ++ s_aliases) (s2l "bibtex") 8%N true; CFind ex_g (NStr (s2l "bibtex")) None; CFind ex_g NNone None])
+  = [Ok (VBool true); Ok (VClass 100%N); Ok (VBool true); Ok (VClass 100%N); Ok (VClass 100%N)]
+  /\ lookup1 [] ex_inst ex_g (s2l "bibtex") = Some 100%N.
+Proof. vm_compute. split; reflexivity. Qed.
+
 Example alias_hypotheses :
   register_plugin [] ex_inst ex_df (ex_g ++ s_aliases) (s2l "al") 1%N false
     = (Ok true, [(ex_g ++ s_aliases, [(s2l "al", 1%N)])])
